@@ -240,6 +240,18 @@ func VerifStreamTokens() {
 				vAssert(string(k.b) == string(k.copy), "unfreed-token-overwritten")
 			}
 		}
+		if vParam("IMM", 0) != 0 {
+			// immediate-Free discipline: everything shifted is released at once, so the memory
+			// held stays bounded: at most two pooled blocks, each bounded by size + longest look-ahead
+			z.Free(gp - freed)
+			freed = gp
+			total := cap(z.buf)
+			for _, blk := range z.pool.pool {
+				total += cap(blk.buf)
+			}
+			vAssert(len(z.pool.pool) <= 2, "pool-grows-although-everything-is-freed")
+			vAssert(total <= 3*(2*size+8), "memory-grows-although-everything-is-freed")
+		}
 	}
 	vReach("tokens")
 }
